@@ -57,6 +57,12 @@ CHECKS = {
  "C17": ("exploration", "expiry monitor over an engine dump + reads + watch stream, with TTL shortened through the verif hook / the scanner's public config, ages measured on the monotonic clock", "5 C17",
    "Held on generated histories mixing Event keys with look-alike keys on engines without native TTL (built-in compaction expiry, scanner driven directly and through a backend) and with native TTL (memkv, Badger), plus 1h-TTL controls: whatever lost records was an Event under <prefix>/events/, older than the TTL, removed wholly, creatable again, and no watch event was produced.",
    "expiry is never demanded, only constrained; a key counts as younger than the TTL only if its newest write BEGAN less than TTL before the observation"),
+ "C18": ("exploration", "call-recording backend + scripted peers under the real revision syncer (role matrix); two-node follower-read monitor with interleavings placed by the revision verif hooks", "5 C18",
+   "Held on the full role matrix (every request type of both APIs x leader/follower x proxy on/off x leader reachable/unreachable/400/500) and on two-node runs with concurrent follower reads while the leader writes, including the placed schedule of a reader delayed between fetch and set.",
+   "the etcd proxy and the election are stubs; the leader's status endpoint re-serves the logic of server.revisionHandler"),
+ "C20": ("exploration", "generated hostile protobuf-round-tripped requests against a node wired with the real Prometheus client; panic/crash capture, metric label-set recorder, probe write + conservation monitor after every request", "5 C20",
+   "Held on generated hostile requests to both APIs with production metrics: every call returned, nothing panicked (in the handler or in background goroutines), no metric name was emitted with two label sets, and after every request a probe write became readable and watchable.",
+   "handlers called in-process; election stubbed; reached request types and metric names are listed in evidence"),
 }
 def cmd(p, tier): return "./bin/kbcheck %s --tier %s" % (p, tier)
 hooks = subprocess.run(["git","-C","/repo","log","--format=%H %s"],capture_output=True,text=True).stdout.splitlines()
@@ -77,6 +83,6 @@ for p in ALL:
             "level_claimed": {"category": lvl, "text": text, "design_ref": "DESIGN.md section " + ref},
             "level_note": note, "technique": tech})
     else:
-        m["not_applicable"].append({"property_id": p, "reason": "check not yet built in this revision of /verif (planned in DESIGN.md section 5); nothing is claimed for it"})
+        m["not_applicable"].append({"property_id": p, "reason": "check not yet built in this revision of /verif; nothing is claimed for it"})
 json.dump(m, open("/verif/MANIFEST.json","w"), indent=1)
 print("checks:", len(m["checks"]), "not_applicable:", len(m["not_applicable"]))
